@@ -5,12 +5,14 @@ from lib.ctx import Ctx
 
 def make_jobs(ctx, n_defs, n_points, want, **genkw):
     jobs, meta = [], []
-    fixed = M.function_coverage_definitions()
+    fixed = [(d, M.function_coverage_points(d), {}) for d in M.function_coverage_definitions()]
+    fixed.append((M.signed_zero_definition(), M.signed_zero_points(), {}))
+    fixed.append((M.assumption_twin_definition(), M.assumption_twin_points(), {"warmup_assumptions": {"positive": True}}))
     for k in range(n_defs):
         if k < len(fixed):
-            d = fixed[k]
+            d, pts, extra = fixed[k]
             for cse in (False, True):
-                jobs.append({"defn": d, "cse": cse, "decl": {"container": "list", "perm_seed": k}, "points": M.function_coverage_points(d), "want": want})
+                jobs.append(dict({"defn": d, "cse": cse, "decl": {"container": "list", "perm_seed": k, "proactive_simplify": False}, "points": pts, "want": want}, **extra))
                 meta.append((k, cse))
             continue
         rational = (k % 2 == 0)
@@ -19,7 +21,7 @@ def make_jobs(ctx, n_defs, n_points, want, **genkw):
             kw.update(force_cal=True, int_cal=True)
         d = M.gen_definition(ctx.rng, rational=rational, **kw)
         pts = [M.rnd_inputs(ctx.rng, d) for _ in range(n_points)]
-        decl = {"container": ctx.rng.choice(["set", "list"]), "perm_seed": ctx.rng.randint(0, 10**6)}
+        decl = {"container": ctx.rng.choice(["set", "list"]), "perm_seed": ctx.rng.randint(0, 10**6), "proactive_simplify": k % 4 == 1}
         for cse in (False, True):
             jobs.append({"defn": d, "cse": cse, "decl": decl, "points": pts, "want": want})
             meta.append((k, cse))
@@ -97,8 +99,9 @@ def run(ctx: Ctx):
                 if "_raised" in pa["model"] or "_raised" in pb["model"]:
                     continue
                 for name in pa["model"]:
-                    if pa["oracle_model"].get(name) is None:
+                    if pa["oracle_model"].get(name) is None and not pa.get("branch_cut"):
                         continue        # outside the quantifier (undefined / overflowing / ill-conditioned point)
+                    # on a branch cut (signed zero inputs) the two settings must still agree with each other
                     if not glue.close(pa["model"][name], pb["model"][name]):
                         ctx.violation(f"common-subexpression elimination changes the value of {name!r}: {pa['model'][name]!r} (off) vs {pb['model'][name]!r} (on)",
                                       {"definition": jobs[2 * k]["defn"], "off": pa["model"], "on": pb["model"]}, key="cse-changes-value")
